@@ -39,7 +39,7 @@ ASSUMPTIONS = [
 NAMES = [
     "a", "b", "c", "x", "y", "logger", "action_type", "_serializers", "fields", "args", "kwargs", "result",
     "wrapped_function", "include_args", "include_result", "task_uuid", "timestamp", "reason", "exception", "n",
-    "message_type", "task_level", "action_status", "cls", "f",
+    "message_type", "task_level", "action_status", "cls", "f", "_call",
 ]
 STRUCT = ("task_uuid", "task_level", "timestamp", "action_type", "action_status")
 KINDS = ["posonly", "pos", "var", "kwonly", "varkw"]
@@ -109,6 +109,10 @@ def normalise(params, exclude_posonly, counter):
     have_var = have_varkw = False
     need_default = False
     for name, kind, default in params:
+        if name == "_call" and exclude_posonly:
+            # open known finding F20 (boltons' generated wrapper uses this very name): excluded by construction
+            name = "call_"
+            counter[0] += 1
         if name in used:
             continue
         if kind == "posonly" and exclude_posonly:
@@ -457,7 +461,11 @@ def _known_f4(facet, case, violation):
     return bool(case.get("raw")) and any(p[1] == "posonly" for p in case["params"]) and violation.kind in ("accepted-unbindable-call", "body-not-run", "decorated-raised")
 
 
-KNOWN = {"F4-positional-only": _known_f4}
+def _known_f20(facet, case, violation):
+    return bool(case.get("raw")) and any(p[0] == "_call" for p in case["params"]) and violation.kind in ("body-not-run", "decorated-raised", "result-altered", "exception-altered")
+
+
+KNOWN = {"F4-positional-only": _known_f4, "F20-parameter-named-_call": _known_f20}
 
 FACETS = [
     Facet("random-calls", strategy, check, classify, quick=1500, thorough=30000),
